@@ -3,6 +3,7 @@ import TakVerif.Impl.PTNInst
 import TakVerif.Impl.TextGlue
 import TakVerif.Proofs.PTNTotal
 import TakVerif.Proofs.TextGlueTotal
+import TakVerif.Proofs.PTNLink
 
 /-! C13, the part for PTN files (parse, start position, replay), chat lines and weights JSON.
 
@@ -50,6 +51,22 @@ theorem replay_total (env : Env) (hpm : ∀ b, Graceful (env.parseMove b)) (htps
   · rcases positionAtMove_errors env htps _ move color e he with h | ⟨s, p, m, _, hpm'⟩
     · exact h
     · exact absurd hpm' (apply_noHang _ p m s)
+
+/-! #### with the byte-level models of `ParseMove` and `ParseTPS` plugged in: no hypothesis left -/
+
+/-- `ParsePTN` over the real `ParseMove` model: total on every byte string -/
+theorem parsePTN_total_linked (basis : Array W) : ∀ input : Bytes, Graceful (parsePTN (realEnv basis) input) :=
+  parsePTN_total (realEnv basis) realParseMove_graceful
+
+/-- `InitialPosition` over the real `ParseTPS` model: total for every parsed file -/
+theorem initialPosition_total_linked (basis : Array W) : ∀ f : File, Graceful (initialPosition (realEnv basis) f) :=
+  initialPosition_total (realEnv basis) (realParseTPS_graceful basis)
+
+/-- parsing and replaying any byte string, with the real `ParseMove`/`ParseTPS` models and any Zobrist
+table: a position or an error value — never a panic, never a loop that does not end -/
+theorem replay_total_linked (basis : Array W) :
+    ∀ (input : Bytes) (move : Int) (color : Color), Graceful (replay (realEnv basis) input move color) :=
+  replay_total (realEnv basis) realParseMove_graceful (realParseTPS_graceful basis)
 
 /-- every `Next` call from a state the iterator can be in keeps that state well-formed and does not panic -/
 theorem next_total (env : Env) (it : Iter) (hinv : it.Inv) :
